@@ -85,9 +85,82 @@ def run_case(n, types_, chain, tres):
             return f"failed {type(e).__name__}: {str(e)[:100]}"
 
 
+class EventSim(mosaik_api_v3.Simulator):
+    """Event-based in-process simulator whose setup_done() and step() are GENERATOR functions (the way an in-process simulator
+    talks back to mosaik): they yield set_event requests taken from PLAN[sid] = {"setup": [...], step time: [...]}."""
+    PLAN: dict = {}
+    LOG: dict = {}
+
+    def __init__(self):
+        super().__init__({"api_version": "3.0", "type": "event-based", "models": {"M": {"public": True, "params": [], "attrs": ["a"]}}})
+
+    def init(self, sid, time_resolution=1.0, **kw):
+        self.sid = sid
+        EventSim.LOG[sid] = []
+        return self.meta
+
+    def create(self, num, model, **kw):
+        return [{"eid": str(i), "type": model} for i in range(num)]
+
+    def setup_done(self):
+        for t in EventSim.PLAN[self.sid].get("setup", []):
+            yield self.mosaik.set_event(t)
+
+    def step(self, time, inputs, max_advance):
+        EventSim.LOG[self.sid].append(time)
+        for t in EventSim.PLAN[self.sid].get(time, []):
+            yield self.mosaik.set_event(t)
+        return None
+
+    def get_data(self, outputs):
+        return {}
+
+
+MOD.EventSim = EventSim
+
+
+def run_event_case(plan, init_ev, rt):
+    EventSim.PLAN = {"E0": plan, "E1": plan}
+    with warnings.catch_warnings():
+        warnings.simplefilter("ignore")
+        w = mosaik.World({"E": {"python": "verif_inline:EventSim"}}, skip_greetings=True)
+        try:
+            for i in range(2):          # two instances of the class
+                w.start("E", sim_id=f"E{i}").M()
+                if init_ev is not None:
+                    w.set_initial_event(f"E{i}", init_ev)
+            w.run(until=4, print_progress=False, **({"rt_factor": 0.0005} if rt else {}))
+            return "finished", dict(EventSim.LOG)
+        except BaseException as e:  # noqa: BLE001
+            try:
+                w.shutdown()
+            except Exception:
+                pass
+            return f"failed {type(e).__name__}", dict(EventSim.LOG)
+
+
+def event_cases():
+    """(plan, initial event, real-time?, expected outcome, expected step times of each instance)"""
+    yield {"setup": [1]}, None, True, "finished", [1]
+    yield {"setup": [2, 2, 1]}, None, True, "finished", [1, 2]
+    yield {"setup": [4]}, 0, True, "finished", [0]                     # at until: ignored
+    yield {0: [2], 2: [3]}, 0, True, "finished", [0, 2, 3]
+    yield {"setup": [3], 0: [1]}, 0, True, "finished", [0, 1, 3]
+    yield {"setup": [1]}, None, False, "failed SimulationError", []     # outside real-time mode: an error
+    yield {0: [2]}, 0, False, "failed SimulationError", None
+
+
 def run_all():
     vio = []
     k = 0
+    for plan, init_ev, rt, want_out, want_steps in event_cases():
+        k += 1
+        out, log = run_event_case(plan, init_ev, rt)
+        ok = out == want_out and (want_steps is None or all(v == want_steps for v in log.values()))
+        if not ok:
+            vio.append({"law": "set_event from an in-process simulator's generator setup_done()/step(): a step at t for t < until, ignored at/after until, "
+                               "an error outside real-time mode", "plan": {str(a): b for a, b in plan.items()}, "initial_event": init_ev, "real_time": rt,
+                        "outcome": out, "expected_outcome": want_out, "steps": log, "expected_steps": want_steps})
     for c in cases():
         k += 1
         out = run_case(*c)
